@@ -35,6 +35,12 @@ def python_records(ctx, n_enc, n_dec):
         recs.append(rec)
         if raw is not None:
             raws.append((d["cls"], raw))
+    # decoded messages encoded again (forwarding, sniffing, dumping), all four padding combinations
+    for j in range(n_enc // 4):
+        d = D.rand_tx(rng) if rng.random() < 0.3 else D.rand_rx(rng)
+        rec = D.reenc_record("n%d" % j, d, rng.random() < 0.6, rng.random() < 0.6)
+        if rec is not None:
+            recs.append(rec)
     # the same laws on long-lived objects: a message object that is re-assigned and re-encoded (burst changed
     # in place), decoded by a decoder object that is reused across classes of messages / header versions
     objs = {}
@@ -233,6 +239,31 @@ def trxcon_records(ctx, n_ind, n_req):
             continue
         raw = r["dsent"][0] if r["dsent"] else []
         recs.append(dict(id="cr%d" % k, e="creq", cls="tx", req=req, raw=raw, dec=D.parse_any("tx", bytes(raw))))
+    # runs of requests during which send() fails now and then (EAGAIN, ENOBUFS, ECONNREFUSED, EINTR)
+    for k in range(max(4, n_req // 40)):
+        if t.crashed:
+            t = T.Trxcon(exe)
+        nq = rng.randint(3, 7)
+        fails = [False] + [rng.random() < 0.35 for _ in range(nq - 1)]
+        if not any(fails):
+            fails[rng.randrange(1, nq)] = True
+        fn0 = rng.randrange(D.HYPER - 20)
+        reqs, sent, died = [], [], False
+        for i in range(nq):
+            req = dict(fn=fn0 + i, tn=rng.randint(0, 7), pwr=rng.randrange(256), bits=D.rand_bits(rng, rng.choice([148, 148, 444])))
+            if fails[i]:
+                t.failsend(rng.choice([11, 105, 111, 4]), 1)
+            r = t.burst(req["fn"], req["tn"], req["pwr"], req["bits"])
+            if r is None:
+                ctx.violation("C04/memory/trxcon-burst-req", "trx_if.c died in burst_req around a failing send() (rc=%s)" % (t.crashed[0],),
+                              dict(req=req, stderr=t.crashed[1]))
+                died = True
+                break
+            t.failsend(0, 0)
+            reqs.append(req)
+            sent.append(r["dsent"])
+        if not died:
+            recs.append(dict(id="cs%d" % k, e="cseq", cls="tx", reqs=reqs, sent=sent, failed=fails))
     t.close()
     if t.crashed:
         ctx.violation("C04/memory/trxcon-exit", "trx_if.c driver exited abnormally (rc=%s)" % (t.crashed[0],),
